@@ -1,7 +1,7 @@
 SPECIFICATION Spec
 CONSTANTS
-NReady = 0 NGet = 1 NCons = 0 MaxObs = 2 GetFix = TRUE Variant = "rebase" Dir = TRUE
-Scripts <- ScriptsDefect StepSets <- StepsSmall Horizon = 200
+NReady = 0 NGet = 1 NCons = 0 MaxObs = 1 GetFix = TRUE Variant = "rebase" Dir = TRUE
+Scripts <- ScriptsDefect StepSets <- StepsSmall Horizon = 200 MaxTicks = 400
 INVARIANT NotBad
 
 CHECK_DEADLOCK FALSE
